@@ -14,11 +14,11 @@ MODELS = ["A-rng: ChaCha8Rng::seed_from_u64 / Rng::gen / gen_range / SliceRandom
 ASSUMPTIONS = ["registries: corpus registries (compact wraps unsigned integers or single-field wrappers of them) and retargeted/self-referential variants; every id",
                "structural conformance (oracles/value.py) is the harness's model of what scale-encode accepts; a candidate is reported only after the real encode_as_type/decode_as_type failed on the concrete registry for some seed in 0..255",
                "the real encoder/decoder are exercised in replay only (round trip, all input consumed, equal value)"]
-BOUNDS = {"quick": {"ids": "every id of the corpus registries", "paths per (registry, id)": "all draw sequences, capped at 300 (cap hits are listed as truncated)", "validation seeds": "3 per sampled id"}, "thorough": {"paths per (registry, id)": "capped at 3000"}}
+BOUNDS = {"quick": {"ids": "every id of the corpus registries", "paths per (registry, id)": "all draw sequences, capped at 150 (cap hits are listed as truncated)", "validation seeds": "3 per sampled id"}, "thorough": {"paths per (registry, id)": "capped at 3000"}}
 OUTSIDE = ["256-bit integers only structurally", "seeds: every draw is an arbitrary value of its type, so all seeds are covered up to the assumption A-rng"]
 GLOBAL_WITNESSES = ("value", "error")
 
-def sym(eng): eng.rng_mode = "symbolic"; eng.max_depth = 400      # legitimate nesting is linear in the registry size (<= 40 entries, ~6 frames per level)
+def sym(eng): eng.rng_mode = "symbolic"; eng.max_depth = 250      # legitimate nesting is linear in the registry size (<= 40 entries, ~6 frames per level)
 def canon_sym(v):
     """structural rendering with z3 terms for symbolic leaves"""
     v = deref(v); vd = v.f[0]
@@ -83,7 +83,7 @@ def exact_family(name, reg0, ids, seeds):
     return Family(name, mk, run, target_prefixes=16, setup=setup)
 
 def families(eng, tier, seed):
-    C = corpus(); fams = []; limit = 300 if tier == "quick" else 3000; rnd = random.Random(seed)
+    C = corpus(); fams = []; limit = 150 if tier == "quick" else 3000; rnd = random.Random(seed)
     for n, r in C.items():
         if n in ("bits_generic",) and False: continue
         for i in range(len(r)): fams.append(make_family("example-%s-%d" % (n, i), r, i, limit))
